@@ -488,7 +488,7 @@ def s_b58():
                      st.binary(min_size=34, max_size=34))
 
 
-def mk_bech32(code, hmode, hsel, ver, n, cmode, upper, body, tweak, good):
+def mk_bech32(code, hmode, hsel, ver, n, cmode, upper, body, tweak, good, glyph=0):
     own = PFX[code]["hrp"]
     if good is not None:        # one of the three forms pycoin knows, so that accepting paths are well populated
         ver, n, cmode = good
@@ -508,6 +508,23 @@ def mk_bech32(code, hmode, hsel, ver, n, cmode, upper, body, tweak, good):
     elif tweak == 3:
         data.append(0)
     s = refenc.bech32_encode_raw(hrp, data, const)
+    if glyph:
+        # look-alikes: a correctly checksummed string in which letters are replaced by non-ASCII characters that a case
+        # mapping turns into them (KELVIN SIGN lower()s to k, LATIN SMALL LETTER LONG S upper()s to S); the body is
+        # varied until the data part contains the letter
+        want, repl, up = [("k", "\u212a", True), ("s", "\u017f", False), ("k", "\u212a", False)][glyph % 3]
+        for j in range(64):
+            d2 = [ver] + refenc.to5(((body[:-1] + bytes([(body[-1] + j) & 0xff])) * 3)[:n])
+            s2 = refenc.bech32_encode_raw(hrp, d2, const)
+            if want in s2[s2.rfind("1"):]:
+                s = s2
+                break
+        head, tail = s[:s.rfind("1") + 1], s[s.rfind("1") + 1:]
+        if up:
+            head, tail = head.upper(), tail.upper()
+            want = want.upper()
+        tail = tail.replace(want, repl) if glyph < 4 else tail.replace(want, repl, 1)
+        return {"net": code, "text": head + tail}
     return {"net": code, "text": s.upper() if upper else s}
 
 
@@ -518,7 +535,8 @@ def s_bech32():
                      st.one_of(st.integers(0, 41), st.sampled_from([20, 32, 20, 32, 19, 21, 31, 33])), st.integers(0, 4),
                      st.sampled_from([False, False, False, True]), st.binary(min_size=14, max_size=14),
                      st.sampled_from([0, 0, 0, 0, 0, 0, 1, 2, 3]),
-                     st.sampled_from([None, None, None, (0, 20, 0), (0, 32, 0), (1, 32, 1), (1, 32, 1)]))
+                     st.sampled_from([None, None, None, (0, 20, 0), (0, 32, 0), (1, 32, 1), (1, 32, 1)]),
+                     st.sampled_from([0] * 10 + [1, 2, 3, 4, 5, 6]))
 
 
 NUMS = [0, 1, 2, 5, -1, -5, N - 1, N, N + 1, P - 1, P, P + 2, 2**256 - 1, 2**256, 2**256 + 5, 2**300, "1" + "0" * 5000, "9" * 4400, "0x" + "f" * 5000] + X_NO_POINT[:2] + X_POINT_SMALL[:2] + X_GE_P[:2]
